@@ -84,8 +84,9 @@ type FragSpec struct {
 	Off, Len int
 	Total    int
 	Data     []byte
-	SeqOff   int // added to the message's message_seq (fragments of messages that do not exist)
+	SeqOff   int  // added to the message's message_seq (fragments of messages that do not exist)
 	Type     byte // handshake type in the fragment header (0: the current message's)
+	DelayMs  int  // pause before this fragment is sent (needs Peer.Sleep)
 }
 
 // AlertError is returned when the other side sent an alert.
@@ -95,9 +96,11 @@ func (a AlertError) Error() string { return fmt.Sprintf("peer: received alert %d
 
 // Peer is the record + handshake layer of a scripted endpoint.
 type Peer struct {
-	packing bool
-	packed  bool
-	packBuf []byte
+	// Sleep, if set, pauses the peer (virtual time); used for fragments that arrive late
+	Sleep    func(time.Duration)
+	packing  bool
+	packed   bool
+	packBuf  []byte
 	DTLS     bool
 	IsClient bool
 	T        Transport
@@ -343,6 +346,9 @@ func (p *Peer) SendMsg(typ byte, body []byte, skipTranscript bool) error {
 	if p.FragPlan != nil {
 		if plan := p.FragPlan(typ, body); plan != nil {
 			for _, f := range plan {
+				if f.DelayMs > 0 && p.Sleep != nil {
+					p.Sleep(time.Duration(f.DelayMs) * time.Millisecond)
+				}
 				total := f.Total
 				if total == 0 {
 					total = len(body)
